@@ -379,6 +379,7 @@ pub fn resolve_inputs(spec: &str, seed: u64) -> Vec<Input> {
             "bodysizes-big" => out.extend(body_size_inputs(true)),
             "dwarfed" => out.extend(dwarfed_inputs(seed, f[1].parse().unwrap())),
             "exectab" => out.extend(exec_table_inputs(seed, f[1].parse().unwrap())),
+            "execbulk" => out.extend(exec_bulk_inputs(seed, f[1].parse().unwrap())),
             "dupimp" => out.extend(duplicate_import_inputs(seed, f[1].parse().unwrap())),
             "par" => out.extend(parallel_inputs(seed, f[1].parse().unwrap())),
             "proposals" => out.extend(proposal_inputs(seed, f[1].parse().unwrap())),
@@ -1044,6 +1045,12 @@ pub fn maps_case(inp: &Input, gc_runs: u32) -> Value {
 
 /// `xform`: with preserve_code_transform on (the emitter takes another path through the code section then)
 pub fn maps_case_cfg(inp: &Input, gc_runs: u32, xform: bool) -> Value {
+    maps_case_full(inp, gc_runs, xform, false)
+}
+
+/// `edit`: before emission the last imported function is given a body through `replace_imported_func` (the emit-time map is
+/// then judged for a Module the API has changed: an import entry removed, a function that changed kind in place)
+pub fn maps_case_full(inp: &Input, gc_runs: u32, xform: bool, edit: bool) -> Value {
     use std::sync::{Arc, Mutex};
     let inm = absmod::project(&inp.bytes).map(strip_ops_keep_locals).unwrap_or_default();
     let cap: Arc<Mutex<(Value, Value, Vec<Value>)>> = Arc::new(Mutex::new((Value::Null, Value::Null, vec![])));
@@ -1094,6 +1101,20 @@ pub fn maps_case_cfg(inp: &Input, gc_runs: u32, xform: bool) -> Value {
         Ok(Err(e)) => return json!({"id": inp.id, "source": inp.source, "outcome": format!("parse-err:{}", run::short(&format!("{:#}", e)))}),
         Err(p) => return json!({"id": inp.id, "source": inp.source, "outcome": format!("parse-panic:{}", run::short(&run::panic_msg(p)))}),
     };
+    if edit {
+        let last = module.imports.iter().filter_map(|i| if let walrus::ImportKind::Function(f) = i.kind { Some(f) } else { None }).last();
+        let Some(f) = last else { return json!({"id": inp.id, "source": inp.source, "outcome": "skip-no-imported-function"}) };
+        let r = std::panic::catch_unwind(std::panic::AssertUnwindSafe(|| {
+            module.replace_imported_func(f, |(body, _args)| {
+                body.unreachable();
+            })
+        }));
+        match r {
+            Ok(Ok(_)) => {}
+            Ok(Err(e)) => return json!({"id": inp.id, "source": inp.source, "outcome": format!("edit-err:{}", run::short(&format!("{:#}", e)))}),
+            Err(p) => return json!({"id": inp.id, "source": inp.source, "outcome": format!("edit-panic:{}", run::short(&run::panic_msg(p)))}),
+        }
+    }
     for _ in 0..gc_runs {
         if let Err(e) = run::gc(&mut module) {
             return json!({"id": inp.id, "source": inp.source, "outcome": format!("gc-{}", e)});
@@ -1121,7 +1142,7 @@ pub fn maps_case_cfg(inp: &Input, gc_runs: u32, xform: bool) -> Value {
         "elem": arr(&em.emit.elem, st2.elems.len()), "data": arr(&em.emit.data, st2.data.len()),
     });
     let (st1, i2id, locals) = cap.lock().unwrap().clone();
-    json!({"id": format!("{}~gc{}{}", inp.id, gc_runs, if xform { "~xform" } else { "" }), "source": inp.source, "outcome": "ok", "inm": inm, "st1": st1, "i2id": i2id, "locals": locals,
+    json!({"id": format!("{}~gc{}{}{}", inp.id, gc_runs, if xform { "~xform" } else { "" }, if edit { "~edit" } else { "" }), "source": inp.source, "outcome": "ok", "inm": inm, "st1": st1, "i2id": i2id, "locals": locals,
            "st2": st2, "id2idx": id2idx, "outm": outm})
 }
 
@@ -1774,7 +1795,17 @@ pub fn par_case(inp: &Input) -> Value {
     };
     #[cfg(not(walrus_verif))]
     let (pj, ej, threads): (Vec<i64>, Vec<i64>, usize) = (vec![], vec![], 0);
-    json!({"id": inp.id, "source": inp.source, "outcome": rt.outcome, "digest": if rt.outcome == "ok" { absmod::fnv(&rt.out) } else { String::new() },
+    // a second run with everything a schedule could disturb beyond the code bytes: the code transform and the index map
+    // handed to custom sections, and the DWARF sections rewritten from them (synthesized line rows for every instruction)
+    let cfg2 = Cfg { probe: true, xform: true, dwarf: true, ..Default::default() };
+    let with_dwarf = crate::dwarf::attach(&inp.bytes, crate::dwarf::DwarfOpts { version: 4, spanning: false }).unwrap_or_else(|| inp.bytes.clone());
+    let rt2 = run::roundtrip(&with_dwarf, &cfg2, 0);
+    let d2 = if rt2.outcome == "ok" {
+        format!("{}/{}/{}", absmod::fnv(&rt2.out), absmod::fnv(serde_json::to_string(&rt2.xform).unwrap_or_default().as_bytes()), absmod::fnv(serde_json::to_string(&rt2.emit).unwrap_or_default().as_bytes()))
+    } else {
+        run::short(&rt2.outcome)
+    };
+    json!({"id": inp.id, "source": inp.source, "outcome": rt.outcome, "digest": if rt.outcome == "ok" { format!("{}:{}", absmod::fnv(&rt.out), d2) } else { String::new() },
            "parse_jobs": pj, "emit_jobs": ej, "threads_seen": threads})
 }
 
@@ -2114,6 +2145,124 @@ pub fn exec_table_inputs(seed: u64, n: u64) -> Vec<Input> {
     out
 }
 
+/// modules for the bulk memory / table instructions of Exec.tla: two or three tables, two memories, active, passive and
+/// declared segments, a host function that may also be the start function, and exported functions that each perform one
+/// bulk operation (in and out of bounds); other exported functions read every table slot and memory byte back
+pub fn exec_bulk_inputs(seed: u64, n: u64) -> Vec<Input> {
+    use crate::gen::*;
+    use crate::optable::T;
+    use rand::Rng;
+    use wasm_encoder::Instruction as I;
+    use wasm_encoder::MemArg;
+    let mut out = vec![];
+    for k in 0..n {
+        let mut r = gen::rng(seed.wrapping_mul(104_729).wrapping_add(k));
+        let mut d = Desc::default();
+        d.types.push(Sig { params: vec![], results: vec![T::I32] });
+        d.types.push(Sig { params: vec![T::I32], results: vec![T::I32] });
+        d.types.push(Sig { params: vec![], results: vec![] });
+        // the host's function; in half of the modules that have it, it is the start function
+        if r.gen_bool(0.6) {
+            d.funcs.push(FuncD { ty: 2, imported: true });
+            d.imports.push(Imp { module: "env".into(), field: "init".into(), kind: ImpKind::Func(0) });
+            if r.gen_bool(0.5) {
+                d.start = Some(0);
+            }
+        }
+        let base = d.funcs.len() as u32;
+        let ntab = r.gen_range(2..4usize);
+        for t in 0..ntab {
+            let imported = t == 0 && r.gen_bool(0.2);
+            d.tables.push(TableD { ety: T::FuncRef, min: r.gen_range(4..8), max: None, t64: false, imported });
+            if imported {
+                d.imports.push(Imp { module: "env".into(), field: "tab".into(), kind: ImpKind::Table(0) });
+            }
+        }
+        for _ in 0..2 {
+            d.mems.push(MemD { min: 1, max: if r.gen_bool(0.5) { Some(3) } else { None }, m64: false, shared: false, imported: false });
+        }
+        let nconst = r.gen_range(3..6u32);
+        for c in 0..nconst {
+            d.funcs.push(FuncD { ty: 0, imported: false });
+            d.bodies.push(BodyD { locals: vec![], instrs: vec![I::I32Const(100 + c as i32), I::End] });
+        }
+        let mut export = |d: &mut Desc, name: String| {
+            let idx = d.funcs.len() as u32 - 1;
+            d.exports.push(ExportD { name, kind: wasm_encoder::ExportKind::Func, idx });
+        };
+        for t in 0..ntab as u32 {
+            d.funcs.push(FuncD { ty: 1, imported: false });
+            d.bodies.push(BodyD { locals: vec![], instrs: vec![I::LocalGet(0), I::CallIndirect { type_index: 0, table_index: t }, I::End] });
+            export(&mut d, format!("call_t{}", t));
+        }
+        for m in 0..2u32 {
+            d.funcs.push(FuncD { ty: 1, imported: false });
+            d.bodies.push(BodyD { locals: vec![], instrs: vec![I::LocalGet(0), I::I32Load8U(MemArg { offset: 0, align: 0, memory_index: m }), I::End] });
+            export(&mut d, format!("load_m{}", m));
+            d.funcs.push(FuncD { ty: 0, imported: false });
+            d.bodies.push(BodyD { locals: vec![], instrs: vec![I::MemorySize(m), I::End] });
+            export(&mut d, format!("size_m{}", m));
+        }
+        // segments
+        let item = |r: &mut rand::rngs::StdRng, funcs_form: bool| if !funcs_form && r.gen_bool(0.2) { Expr::Null(T::FuncRef) } else { Expr::Func(base + r.gen_range(0..nconst)) };
+        for t in 0..ntab as u32 {
+            if r.gen_bool(0.8) {
+                let min = d.tables[t as usize].min;
+                let nitems = r.gen_range(1..4u64);
+                let funcs_form = r.gen_bool(0.6);
+                let items = (0..nitems).map(|_| item(&mut r, funcs_form)).collect();
+                d.elems.push(ElemD { mode: ElemMode::Active { table: t, offset: Expr::I32(r.gen_range(0..=min - nitems) as i32), explicit_table: t != 0 || r.gen_bool(0.3) }, ety: T::FuncRef, funcs_form, items });
+            }
+        }
+        for _ in 0..r.gen_range(1..4) {
+            let funcs_form = r.gen_bool(0.5);
+            let items = (0..r.gen_range(2..5)).map(|_| item(&mut r, funcs_form)).collect();
+            let mode = if r.gen_bool(0.85) { ElemMode::Passive } else { ElemMode::Declared };
+            d.elems.push(ElemD { mode, ety: T::FuncRef, funcs_form, items });
+        }
+        for m in 0..2u32 {
+            if r.gen_bool(0.7) {
+                d.data.push(DataD { mode: DataMode::Active { mem: m, offset: Expr::I32(r.gen_range(0..8)) }, bytes: (0..r.gen_range(1..4)).map(|_| r.gen_range(1..250)).collect() });
+            }
+        }
+        for _ in 0..r.gen_range(1..4) {
+            d.data.push(DataD { mode: DataMode::Passive, bytes: (0..r.gen_range(3..7)).map(|_| r.gen_range(1..250)).collect() });
+        }
+        d.datacount = true;
+        // the operations
+        let (nel, nda) = (d.elems.len() as u32, d.data.len() as u32);
+        for j in 0..r.gen_range(5..10) {
+            let c = |r: &mut rand::rngs::StdRng, hi: i32| I::I32Const(r.gen_range(0..hi));
+            let ins: Vec<I<'static>> = match r.gen_range(0..9) {
+                0 | 1 => vec![c(&mut r, 7), c(&mut r, 7), c(&mut r, 4), I::TableCopy { src_table: r.gen_range(0..ntab) as u32, dst_table: r.gen_range(0..ntab) as u32 }],
+                2 => vec![c(&mut r, 7), c(&mut r, 4), c(&mut r, 4), I::TableInit { elem_index: r.gen_range(0..nel), table: r.gen_range(0..ntab) as u32 }],
+                3 => vec![I::ElemDrop(r.gen_range(0..nel))],
+                4 => vec![c(&mut r, 12), c(&mut r, 12), c(&mut r, 6), I::MemoryCopy { src_mem: r.gen_range(0..2), dst_mem: r.gen_range(0..2) }],
+                5 => vec![c(&mut r, 12), c(&mut r, 300), c(&mut r, 5), I::MemoryFill(r.gen_range(0..2))],
+                6 => vec![c(&mut r, 12), c(&mut r, 5), c(&mut r, 5), I::MemoryInit { mem: r.gen_range(0..2), data_index: r.gen_range(0..nda) }],
+                7 => vec![I::DataDrop(r.gen_range(0..nda))],
+                _ => vec![c(&mut r, 3), I::MemoryGrow(r.gen_range(0..2)), I::Drop],
+            };
+            let mut ins = ins;
+            if d.n_imported_funcs() > 0 && r.gen_bool(0.2) {
+                ins.push(I::Call(0));
+            }
+            ins.push(I::End);
+            d.funcs.push(FuncD { ty: 2, imported: false });
+            d.bodies.push(BodyD { locals: vec![], instrs: ins });
+            export(&mut d, format!("op{}", j));
+        }
+        if r.gen_bool(0.5) {
+            d.exports.push(ExportD { name: "tab".into(), kind: wasm_encoder::ExportKind::Table, idx: r.gen_range(0..ntab) as u32 });
+        }
+        if r.gen_bool(0.5) {
+            d.exports.push(ExportD { name: "mem".into(), kind: wasm_encoder::ExportKind::Memory, idx: r.gen_range(0..2) });
+        }
+        out.push(Input { id: format!("execbulk-{}", k), bytes: d.encode(), source: format!("execbulk:{}:{}", seed, k) });
+    }
+    out
+}
+
 // ---- execution (C01, C06) -------------------------------------------------------------------------
 
 pub fn exec_case(inp: &Input, gc_runs: u32) -> Option<Value> {
@@ -2155,6 +2304,21 @@ pub fn exec_case(inp: &Input, gc_runs: u32) -> Option<Value> {
             }
         }
     }
+    let bulk = inp.source.starts_with("execbulk:");
+    if bulk {
+        // after every bulk operation every table slot, the first bytes of every memory and the memory sizes are read back
+        let mut ops: Vec<&(String, usize)> = callable.iter().filter(|c| c.0.starts_with("op")).collect();
+        ops.sort_by_key(|c| c.0[2..].parse::<u32>().unwrap_or(0));
+        for (name, _) in ops {
+            calls.push(json!({"name": name, "args": [], "round": 0}));
+            for (probe, np) in callable.iter().filter(|c| !c.0.starts_with("op")) {
+                let span = if probe.starts_with("call_t") { 8 } else if probe.starts_with("load_m") { 18 } else { 1 };
+                for a in 0..span {
+                    calls.push(json!({"name": probe, "args": if *np == 1 { vec![a] } else { vec![] }, "round": 0}));
+                }
+            }
+        }
+    }
     if inp.source.starts_with("ectl:") {
         // executable control strings: the argument's low three bits decide every condition
         for a in 0..8 {
@@ -2172,7 +2336,7 @@ pub fn exec_case(inp: &Input, gc_runs: u32) -> Option<Value> {
             calls.push(json!({"name": name, "args": args, "round": round}));
         }
     }
-    Some(json!({"id": format!("{}~gc{}", inp.id, gc_runs), "source": inp.source, "skip": false, "outcome": "ok", "inp": inp_prog, "outp": out_prog, "calls": calls, "fuel": 40,
+    Some(json!({"id": format!("{}~gc{}", inp.id, gc_runs), "source": inp.source, "skip": false, "outcome": "ok", "inp": inp_prog, "outp": out_prog, "calls": calls, "fuel": if bulk { 5000 } else { 40 },
                 "lenient_inst": gc_runs > 0}))
 }
 
